@@ -813,8 +813,8 @@ impl Check for C08 {
     }
     fn scenarios(&self, tier: Tier) -> u64 {
         match tier {
-            Tier::Quick => 400,
-            Tier::Thorough => 40000,
+            Tier::Quick => 2000,
+            Tier::Thorough => 60000,
         }
     }
     fn rule_text(&self) -> String {
